@@ -29,7 +29,13 @@ func ToMultiAlign(samIn io.Reader, out io.Writer, wrap int, trimstart int, trime
 
 	go groupSamRecords(samIn, cSH, cSR, cReadDone, cErr)
 
-	header := <-cSH
+	// wait for the header, or for the error if the sam file can't be read at all
+	var header biogosam.Header
+	select {
+	case header = <-cSH:
+	case err := <-cErr:
+		return err
+	}
 	refLen := header.Refs()[0].Len()
 
 	trimstart, trimend, trim, err := checkArgs(refLen, trimstart, trimend)
